@@ -298,3 +298,43 @@ def fmt_path(ap):
     else:
         base = "_%d" % r[1]
     return base + "".join("." + x if not x.startswith("[") else x for x in _strip(f))
+
+
+def control_sources(b, bb, depth=0, _seen=None):
+    """classified tests that decide whether `bb` runs, with flags expanded: a test of a boolean local that is assigned
+    constants on different paths (`let mut neg = false; if .. { neg = true }`, `let neg = matches!(..)`) is replaced by
+    the tests that decide which constant it gets"""
+    _seen = _seen if _seen is not None else set()
+    out = []
+    for sw in sorted(controlling_switches(b, bb)):
+        if sw in _seen:
+            continue
+        _seen.add(sw)
+        c = classify_switch(b, sw)
+        if c[0] == "other" and depth < 4:
+            t = b.term(sw)
+            l = op_local(b.resolve_copy(t["on"]))
+            defs = b.defs.get(l, []) if l is not None else []
+            whole = [d for d in defs if d[2] == "assign" and not d[3]["p"]["p"]]
+            if whole and len(whole) == len(defs) and all(d[3]["rv"]["k"] == "use" and op_const(d[3]["rv"]["o"]) is not None for d in whole):
+                for d in whole:
+                    out += control_sources(b, d[0], depth + 1, _seen)
+                continue
+            # a flag combined from other flags / calls: `a || b` lowers to assignments of the operands
+            if whole and len(whole) == len(defs):
+                expanded = False
+                for d in whole:
+                    rv = d[3]["rv"]
+                    if rv["k"] == "use":
+                        q = op_place(rv["o"])
+                        if q is not None and not q["p"]:
+                            dd = b.single_def(q["l"])
+                            if dd and dd[2] == "call":
+                                out.append(("call", callee_name(dd[3]) or "", access_path(b, op_place(dd[3]["args"][0])) if dd[3]["args"] and op_place(dd[3]["args"][0]) is not None else None,
+                                            [access_path(b, op_place(a)) for a in dd[3]["args"] if op_place(a) is not None]))
+                                expanded = True
+                    out += control_sources(b, d[0], depth + 1, _seen)
+                if expanded:
+                    continue
+        out.append(c)
+    return out
